@@ -104,7 +104,7 @@ func (m *bookModel) Enabled() []string {
 	}
 	var evs []string
 	for i := 0; i < 2; i++ {
-		if !m.added[i] && !m.failed {
+		if !m.added[i] { // (also after Failed: a continually gathering agent gets new local candidates without a Restart)
 			evs = append(evs, fmt.Sprintf("addLocal:%d", i))
 		}
 	}
@@ -180,7 +180,7 @@ func (m *bookModel) Apply(ev string) {
 	case "tick":
 		m.tick()
 	case "restart":
-		m.recordGeneration()
+		m.recordGeneration(true)
 		m.x.gen++
 		if err := a.Restart(fmt.Sprintf("ufragAAAAg%d", m.x.gen), fmt.Sprintf("pwdAAAAAAAAAAAAAAAAAAAAAAAg%d", m.x.gen)); err != nil {
 			m.problem("", "Restart: %v", err)
@@ -199,7 +199,7 @@ func (m *bookModel) Apply(ev string) {
 		if a.connectionState != ConnectionStateFailed {
 			m.problem("", "agent did not fail after 40s of silence (state %s)", a.connectionState)
 		} else {
-			m.recordGeneration()
+			m.recordGeneration(false)
 			m.failed = true
 			m.checkWiped("entering Failed")
 		}
@@ -232,7 +232,7 @@ func (m *bookModel) Apply(ev string) {
 }
 
 // recordGeneration remembers what belongs to the generation that is about to end.
-func (m *bookModel) recordGeneration() {
+func (m *bookModel) recordGeneration(endsGeneration bool) {
 	for _, s := range m.x.socks {
 		m.oldAddrs[s.addr.String()] = true
 	}
@@ -243,7 +243,12 @@ func (m *bookModel) recordGeneration() {
 	}
 	m.x.socks, m.x.cands = nil, nil
 	m.added = map[int]bool{}
-	m.idMemo = map[uint64]bookPairMemo{}
+	if endsGeneration { // Failed releases everything but the generation goes on: its pair ids stay spoken for
+		m.idMemo = map[uint64]bookPairMemo{}
+		m.refills = 0
+	} else {
+		m.refills++
+	}
 }
 
 func (m *bookModel) checkWiped(when string) {
@@ -412,7 +417,7 @@ func (m *bookModel) Finish() []vtProblem { return nil }
 
 func checkC06(c *runCtx) {
 	c.assume("the agent is started before the first event; local candidates enter through addCandidate (as gathering does), remote ones through AddRemoteCandidate and through authenticated inbound checks",
-		"pair ids: 'never reused within a generation' is checked against the harness's own id -> address-pair memo, reset at Restart / Failed")
+		"pair ids: 'never reused within a generation' is checked against the harness's own id -> address-pair memo, reset at Restart (Failed releases the pairs, the generation and its ids go on)")
 	p := newVTPool()
 	defer p.close()
 	dl := c01deadline(c, 240, 1500)
